@@ -3,6 +3,8 @@ package c19
 
 import (
 	"bytes"
+	"crypto/sha1"
+	"os"
 	"encoding/hex"
 	"fmt"
 	"runtime/debug"
@@ -33,6 +35,14 @@ func parse(src string) ([]ast.Statement, error) {
 	}
 	return vcl.Statements, nil
 }
+
+var otherProgram = func() []ast.Statement {
+	st, err := parse("sub zzzzzzzz { set req.http.ZZZZZZZZ = \"ZZZZZZZZZZZZZZZZ\" req.http.YYYYYYYY; if (req.http.ZZ ~ \"zz\") { restart; } }\nacl zz { \"9.9.9.9\"/32; }\n")
+	if err != nil {
+		panic(err)
+	}
+	return st
+}()
 
 func bigString(n int) string { return strings.Repeat("a", n) }
 
@@ -79,7 +89,7 @@ func seeds() [][]byte {
 			return
 		}
 		seen[string(b)] = true
-		out = append(out, b)
+		out = append(out, append([]byte{}, b...)) // the generator never keeps a view of memory the codec may own
 	})
 	return out
 }
@@ -98,6 +108,13 @@ func gen19(tier string, emit func(Case)) {
 	roundTripPrograms(tier, func(src, from string) { emit(Case{Kind: "roundtrip", Src: src, From: from}) })
 	thorough := tier == "thorough"
 	ss := seeds()
+	if os.Getenv("VERIF_C19_DEBUG") != "" {
+		h := sha1.New()
+		for _, x := range ss {
+			h.Write(x)
+		}
+		fmt.Fprintf(os.Stderr, "seeds=%d sha=%x\n", len(ss), h.Sum(nil))
+	}
 	emitHex := func(b []byte, from string) { emit(Case{Kind: "decode", Hex: hex.EncodeToString(b), From: from}) }
 	for si, s := range ss {
 		emitHex(s, "seed")
@@ -178,16 +195,25 @@ func guard(n int, f func()) (site, kind, msg string) {
 	return
 }
 
+// codecFrame names the innermost decodeXxx/encodeXxx function on the stack (helpers
+// like nextFrame tick too, but the loop that does not end is in its caller).
 func codecFrame(st string) string {
+	first := "?"
 	for _, l := range strings.Split(st, "\n") {
 		if strings.HasPrefix(l, "github.com/ysugimoto/falco/v2/ast/codec.") {
 			if j := strings.LastIndex(l, "("); j > 0 {
 				l = l[:j]
 			}
-			return strings.TrimPrefix(l, "github.com/ysugimoto/falco/v2/")
+			l = strings.TrimPrefix(l, "github.com/ysugimoto/falco/v2/")
+			if first == "?" {
+				first = l
+			}
+			if strings.Contains(l, ").decode") || strings.Contains(l, ").encode") || strings.HasSuffix(l, ").Decode") {
+				return l
+			}
 		}
 	}
-	return "?"
+	return first
 }
 
 func panicShape(msg string) string {
@@ -289,6 +315,33 @@ func run(c Case) engine.Result {
 		check("Encode", []ast.Statement{u}, func() ([]byte, error) { return codec.NewEncoder().Encode(u) })
 	}
 	check("Encodes", stmts, func() ([]byte, error) { return codec.NewEncoder().Encodes(stmts) })
+	// history: the bytes of one encoding must survive later encodings
+	check("Encodes-then-other-encodings", stmts, func() ([]byte, error) {
+		b, err := codec.NewEncoder().Encodes(stmts)
+		if err != nil {
+			return b, err
+		}
+		for i := 0; i < 3; i++ {
+			codec.NewEncoder().Encodes(otherProgram)
+			for _, o := range otherProgram {
+				codec.NewEncoder().Encode(o)
+			}
+		}
+		return b, nil
+	})
+	if len(units) > 0 {
+		u := units[len(units)-1]
+		check("Encode-then-other-encodings", []ast.Statement{u}, func() ([]byte, error) {
+			b, err := codec.NewEncoder().Encode(u)
+			if err != nil {
+				return b, err
+			}
+			for i := 0; i < 3; i++ {
+				codec.NewEncoder().Encodes(otherProgram)
+			}
+			return b, nil
+		})
+	}
 	return res
 }
 
